@@ -105,7 +105,7 @@ def check(cx):
     # ---- C04.1b what a snapshot is made of ---------------------------------------------------------------
     r1b = cx.rule("C04.1b", "FLOW: TransactionCoordinator::snapshot hands Snapshot::new the complete set of Active "
                   "transactions and the complete set of Aborted ones (the direct results of transaction_set, unfiltered) and "
-                  "the persisted last-committed id as upper bound", floor=3)
+                  "the persisted last-committed id as upper bound (accessor -> pager getter -> header field last_committed_transaction)", floor=4)
     fs = cx.guard(r1b, "snapshot", p.fn, K.COORD + "::snapshot")
     if fs:
         news = [c for c in fs.calls() if c.callee == SNAP + "::new"]
@@ -137,6 +137,28 @@ def check(cx):
                 states.append(k or (kc or {}).get("v"))
         cx.verdict(sorted(str(x) for x in states) == ["Aborted", "Active"], r1b, "states-active-and-aborted", fs.where(),
                    "transaction_set(Active) and transaction_set(Aborted)", "snapshot() collects transaction states %s" % states)
+
+        # ... and get_last_committed really reads the persisted last-committed id (not the last *created* one, which runs
+        # ahead of every commit): coordinator accessor -> pager getter -> header field of the same name
+        chain_ok, why = False, "get_last_committed not found"
+        g1 = p.fns.get(K.COORD + "::get_last_committed")
+        if g1:
+            pg = [c.callee for c in g1.calls() if c.callee.startswith(K.PAGER + "::get_")]
+            why = "calls %s" % pg
+            if pg == [K.PAGER + "::get_last_committed_transaction"]:
+                g2 = p.fns.get(pg[0])
+                flds = set()
+                for b in (g2.blocks if g2 else []):
+                    for st in b["stmts"]:
+                        for o in (st["rv"].get("o") or []) if isinstance(st["rv"].get("o"), list) else []:
+                            for pe in (o.get("c") or o.get("m") or [])[1:]:
+                                if isinstance(pe, str) and pe.startswith(".") and ":storage::page::PageZeroHeader" in pe:
+                                    flds.add(pe.split(":")[0][1:])
+                why = "reads header field(s) %s" % sorted(flds)
+                chain_ok = flds == {"last_committed_transaction"}
+        cx.verdict(chain_ok, r1b, "upper-bound-reads-last-committed-field", g1.where() if g1 else "", why,
+                   "the snapshot upper bound is not the persisted last-committed id (%s): a transaction that merely started is "
+                   "treated as possibly committed and its uncommitted rows are visible to the reader that began before it" % why)
 
     # ---- C04.2 snapshot-aware reads -----------------------------------------------------------
     r2 = cx.rule("C04.2", "WMC: the snapshot-unaware decoders/predicates are called only from the frozen list; every "
